@@ -323,12 +323,24 @@ impl Rect {
     ///
     /// Width and height are guarantee to be >= 1.
     pub fn round_out(&self) -> Option<IntRect> {
-        IntRect::from_xywh(
-            i32::saturate_floor(self.x()),
-            i32::saturate_floor(self.y()),
-            core::cmp::max(1, i32::saturate_ceil(self.width()) as u32),
-            core::cmp::max(1, i32::saturate_ceil(self.height()) as u32),
-        )
+        // Round the edges, not the width/height: `ceil(width)` can fall short of
+        // `ceil(right) - floor(left)` and the result would not contain the rectangle.
+        let left = i32::saturate_floor(self.left());
+        let top = i32::saturate_floor(self.top());
+        let right = i32::saturate_ceil(self.right());
+        let bottom = i32::saturate_ceil(self.bottom());
+        // An edge that does not fit into i32 was saturated: no IntRect contains this rect.
+        if (left as f32) > self.left()
+            || (top as f32) > self.top()
+            || (right as f32) < self.right()
+            || (bottom as f32) < self.bottom()
+        {
+            return None;
+        }
+
+        let width = u32::try_from(right.checked_sub(left)?).ok()?;
+        let height = u32::try_from(bottom.checked_sub(top)?).ok()?;
+        IntRect::from_xywh(left, top, core::cmp::max(1, width), core::cmp::max(1, height))
     }
 
     /// Returns an intersection of two rectangles.
